@@ -98,6 +98,12 @@ class Ctx:
         else:
             path = self.violations[-1][1]
         self.violations.append((desc, path))
+        if os.environ.get("VERIF_STATS"):
+            self.stats = getattr(self, "stats", {})
+            key = payload.get("stat_key", "?") if isinstance(payload, dict) else "?"
+            self.stats[key] = self.stats.get(key, 0) + 1
+            self.stat_ex = getattr(self, "stat_ex", {})
+            self.stat_ex.setdefault(key, desc)
         return True
 
     # -- end ---------------------------------------------------------
@@ -106,12 +112,15 @@ class Ctx:
         for fid, hit in sorted(self.known_hit.items()):
             print("KNOWN-FINDING: property=%s %s [%s] (%d cases this run; e.g. %s)" % (
                 self.pid, self.known[fid]["what"], fid, hit["n"], hit["desc"][:160]))
+        if getattr(self, "stats", None):
+            for k, n in sorted(self.stats.items(), key=lambda x: -x[1]):
+                print("STAT %6d  %s\n        e.g. %s" % (n, k, " ".join(self.stat_ex[k].split())[:700]))
         seen = set()
         for desc, path in self.violations:
             if path in seen:
                 continue
             seen.add(path)
-            print("VIOLATION property=%s replay=%s  # %s" % (self.pid, path, desc[:300]))
+            print("VIOLATION property=%s replay=%s  # %s" % (self.pid, path, " ".join(desc.split())[:240]))
         cov = dict(self.cov)
         cov["known_findings_matched"] = {k: v["n"] for k, v in self.known_hit.items()}
         cov.update(self.notes)
